@@ -17,6 +17,12 @@ import (
 // builtinFunc is the signature for all builtin function implementations.
 type builtinFunc func(i *Interpreter, args []Expr, env *Environment) (interface{}, error)
 
+// IsBuiltin reports whether name is a built-in function of the interpreter.
+func IsBuiltin(name string) bool {
+	_, ok := builtinFuncs[name]
+	return ok
+}
+
 // builtinFuncs is the dispatch table mapping builtin function names to their implementations.
 // Initialized in init() to avoid initialization cycle with evaluateFunctionCall.
 var builtinFuncs map[string]builtinFunc
